@@ -126,3 +126,5 @@ func init() {
 	prop("C12", "C12-R5")
 	prop("C13", "C13-R6")
 }
+
+func init() { prop("C06", "C07-R1") }
